@@ -359,3 +359,17 @@ def arena_commit_whole_range(ctx, R, prog):
         ok_size = size == "mi_arena_block_size(%s)" % cnt
         ctx.check(R, ok_start and ok_size, h.where(c), "the commit covers the whole claimed range: (%s, %s) should be (block start, mi_arena_block_size(%s))" % (start, size, cnt),
                   key=R + ":mi_arena_try_alloc_at:range")
+
+
+def reallocarr_store(ctx, R, prog):
+    """C06.R4 / C05.R7: mi_reallocarr writes the caller's pointer slot only with the new block of a successful re-allocation"""
+    g = prog.fn("mi_reallocarr")
+    cfg = g.cfg
+    news = [dd["d"] for _, dd in rl.var_init_from(g, lambda j: rl.is_call(g, j, "mi_reallocarray"))]
+    stores = [a for a, lhs, rhs, op in g.stores() if g.nodes[g.strip(lhs)]["k"] == "UnaryOperator" and g.nodes[g.strip(lhs)]["op"] == "*"
+              and not g.mentions_call(lhs, "__errno_location")]
+    ok = bool(news) and len(stores) == 1
+    if ok:
+        w = cfg.guarded(cfg.pt(stores[0]), lambda e, pol: isinstance(e, int) and rl.fact_nonnull(g, e, pol, rl.is_var(g, news[0])))
+        ok = w is None
+    ctx.check(R, ok, g.where(), "*op = newp only when the reallocation succeeded", key=R + ":reallocarr:store")
